@@ -695,7 +695,14 @@ func (s *Server) Watch(ctx context.Context, opts metav1.ListOptions) (watch.Inte
 		call.Outcome = "connect-api-error"
 		call.Ended = true
 		gr := schema.GroupResource{Resource: s.Kind + "s"}
-		switch detsim.Choose("api-error-kind", 7) {
+		switch detsim.Choose("api-error-kind", 9) {
+		case 7:
+			// "the server does not allow this method on the requested resource"
+			return nil, apierrors.NewMethodNotSupported(gr, "watch")
+		case 8:
+			// any other status a server or a proxy in front of it can answer with
+			code := []int{402, 406, 408, 409, 413, 415, 422, 501, 502, 504, 507}[detsim.Choose("api-error-code", 11)]
+			return nil, apierrors.NewGenericServerResponse(code, "get", gr, "", "injected", 0, true)
 		case 0:
 			return nil, apierrors.NewForbidden(gr, "", errors.New("injected: forbidden"))
 		case 1:
